@@ -1,7 +1,8 @@
 (* C19 -- Sampled choice sets follow the protocol; full sampling equals the full model.
    Property theorems only; each is closed by [exact] of a lemma proved in Proofs/SamplingP.v. *)
-From Coq Require Import ZArith List String Reals Permutation.
+From Coq Require Import ZArith List String Reals Permutation Lra Lia.
 From BV Require Import Model.Sampling Gen.SamplingFormulas Proofs.SamplingP.
+From BV Require Import Model.BuildersChoice Model.SamplingMev Proofs.ChoiceBase Proofs.ChoiceNested Proofs.ChoiceCnl Proofs.SamplingMevP.
 Import ListNotations.
 Open Scope Z_scope.
 
@@ -139,6 +140,193 @@ Example T19d_example :
   ids (sample_alternatives strata 13 [[7%nat; 2%nat]; [0%nat]]) = [13; 11; 10; 12; 14] /\
   wf_stratab strata = true.
 Proof. vm_compute. repeat split. Qed.
+
+(* T19g / T19h.  Full sampling of the nested and of the cross-nested logit.  [t] is the expression
+   built by GenerateModel.get_nested_logit / get_cross_nested_logit on the sample (Gallina mirrors
+   in Model/SamplingMev.v, compared node for node with the Python trees by stream `full`), [l] the
+   expression built by models.lognested / models.logcnl on the full choice set (mirrors of C05/C06 in
+   Model/BuildersChoice.v).  When every stratum of both partitions is sampled completely -- whatever
+   permutations the random generator produced ([rows], [mrows] are ANY valid samples) -- the two
+   expressions have the same value.  Hypotheses: the flat row holds what T19a-T19c establish
+   (sample_holds / alphas_hold: utilities evaluate to V(alternative), id, correction, weight and alpha
+   columns); the nest parameters evaluate to non-zero reals (nests_ok / cnests_ok, alphas > 0); the full
+   model is accepted by its validators ([lognested ... = Ok l]: nests pairwise disjoint, non-empty,
+   inside the choice set); every nest lists an alternative once and lies in the MEV partition.
+   For the cross-nested logit a numeric nest parameter must be one on which Python's double arithmetic
+   is exact (cnests_exact: (1/mu - 1) computed by the sample builder vs (1 - mu)/mu by cnl.py);
+   trivially true for parameters given as expressions. *)
+Theorem T19g_full_sampling_nested :
+  forall Phi en Vf (U : dict expr) (a : nn_arg) strata mev c rows mrows idcol pre us j0 ums ch l t,
+  wf_strata strata -> fully_sampled strata -> valid_sample strata c rows ->
+  wf_strata mev -> fully_sampled mev -> valid_mev_sample mev mrows ->
+  Permutation (keys U) (full_set strata) ->
+  (forall k e, In (k, e) U -> evalX Phi e en = XR (Vf k)) ->
+  nests_ok Phi en (nn_arg_nests a) ->
+  (forall m, In m (nn_arg_nests a) -> NoDup (nn_alts m) /\ incl (nn_alts m) (full_set mev)) ->
+  sample_holds Phi en Vf "" idcol log_proba_col 0 (ids rows) (map row_corr rows) us ->
+  sample_holds Phi en Vf pre idcol mev_weight_col j0 (ids mrows) (map row_weight mrows) ums ->
+  pvX Phi en ch = XR (IZR c) ->
+  lognested (pe_dict U) None a ch = Ok l ->
+  get_nested_logit pre idcol us j0 ums (nn_arg_nests a) = Ok t ->
+  evalX Phi t en = evalX Phi l en.
+Proof. exact full_sampling_nested. Qed.
+Print Assumptions T19g_full_sampling_nested.
+
+Theorem T19h_full_sampling_cnl :
+  forall Phi en Vf (U : dict expr) (a : cn_arg) (nests : list ncnest)
+         strata mev c rows mrows idcol pre us j0 ums ch l t,
+  wf_strata strata -> fully_sampled strata -> valid_sample strata c rows ->
+  wf_strata mev -> fully_sampled mev -> valid_mev_sample mev mrows ->
+  Permutation (keys U) (full_set strata) ->
+  (forall k e, In (k, e) U -> evalX Phi e en = XR (Vf k)) ->
+  map snd nests = cn_arg_nests a -> NoDup (map fst nests) ->
+  cnests_ok Phi en (cn_arg_nests a) -> cnests_exact (cn_arg_nests a) ->
+  (forall nm, In nm nests ->
+     NoDup (keys (cn_alpha (snd nm))) /\ incl (keys (cn_alpha (snd nm))) (full_set mev)) ->
+  sample_holds Phi en Vf "" idcol log_proba_col 0 (ids rows) (map row_corr rows) us ->
+  alphas_hold en (alpha_of Phi en) "" nests 0 (ids rows) ->
+  sample_holds Phi en Vf pre idcol mev_weight_col j0 (ids mrows) (map row_weight mrows) ums ->
+  alphas_hold en (alpha_of Phi en) pre nests j0 (ids mrows) ->
+  pvX Phi en ch = XR (IZR c) ->
+  logcnl (pe_dict U) None a ch = Ok l ->
+  get_cross_nested_logit pre us j0 ums nests = Ok t ->
+  evalX Phi t en = evalX Phi l en.
+Proof. exact full_sampling_cnl. Qed.
+Print Assumptions T19h_full_sampling_cnl.
+
+(* non-vacuity of T19g / T19h: two alternatives 1, 2 in one stratum sampled completely (the generator
+   returned them in the order 2, 1 in the MEV sample), one nest {1, 2} with parameter mu = 2 *)
+Fixpoint assocR (n : string) (l : list (string * R)) : option R :=
+  match l with [] => None | (k, v) :: r => if String.eqb n k then Some v else assocR n r end.
+Definition ex_rows : list srow := [(1, Some (2, 2)); (2, Some (2, 2))].
+Definition ex_mrows : list srow := [(2, Some (2, 2)); (1, Some (2, 2))].
+Definition ex_strata : list stratum := [([1; 2], 2)].
+Definition ex_vars : list (string * R) :=
+  [("v_0", IZR 1); ("v_1", IZR 2); ("alt_id_0", IZR 1); ("alt_id_1", IZR 2);
+   ("_log_proba_0", corr_value (2, 2)); ("_log_proba_1", corr_value (2, 2));
+   ("_MEV_v_0", IZR 2); ("_MEV_v_1", IZR 1); ("_MEV_alt_id_0", IZR 2); ("_MEV_alt_id_1", IZR 1);
+   ("_MEV__mev_weight_0", weight_value (2, 2)); ("_MEV__mev_weight_1", weight_value (2, 2));
+   ("_CNL_n1_0", D2R d_one); ("_CNL_n1_1", D2R d_one);
+   ("_MEV__CNL_n1_0", D2R d_one); ("_MEV__CNL_n1_1", D2R d_one);
+   ("V1", IZR 1); ("V2", IZR 2)]%string.
+Definition ex_en : env :=
+  mkEnv (fun n => if String.eqb n "mu" then Some 2%R else None) (fun n => assocR n ex_vars)
+        (fun _ => None) (fun _ => None) [] [].
+Definition ex_U : dict expr := [(1, EVar "V1"); (2, EVar "V2")].
+Definition ex_us : list expr := [EVar "v_0"; EVar "v_1"].
+Definition ex_ums : list expr := [EVar "_MEV_v_0"; EVar "_MEV_v_1"].
+Definition ex_nn : nn_arg := NNObj [1; 2] [mkNN (PE (EBeta "mu" false)) [1; 2]].
+Definition ex_cn : cn_arg := CNObj [1; 2] [mkCN (PE (EBeta "mu" false)) [(1, PN d_one); (2, PN d_one)]].
+Definition ex_ncn : list ncnest := [("n1"%string, mkCN (PE (EBeta "mu" false)) [(1, PN d_one); (2, PN d_one)])].
+
+Example T19g_example : forall Phi,
+  wf_strata ex_strata /\ fully_sampled ex_strata /\ valid_sample ex_strata 1 ex_rows /\
+  valid_mev_sample ex_strata ex_mrows /\
+  Permutation (keys ex_U) (full_set ex_strata) /\
+  (forall k e, In (k, e) ex_U -> evalX Phi e ex_en = XR (IZR k)) /\
+  nests_ok Phi ex_en (nn_arg_nests ex_nn) /\
+  (forall m, In m (nn_arg_nests ex_nn) -> NoDup (nn_alts m) /\ incl (nn_alts m) (full_set ex_strata)) /\
+  sample_holds Phi ex_en IZR "" "alt_id" log_proba_col 0 (ids ex_rows) (map row_corr ex_rows) ex_us /\
+  sample_holds Phi ex_en IZR mev_prefix "alt_id" mev_weight_col 0 (ids ex_mrows) (map row_weight ex_mrows) ex_ums /\
+  pvX Phi ex_en (PN d_one) = XR (IZR 1) /\
+  (exists l, lognested (pe_dict ex_U) None ex_nn (PN d_one) = Ok l) /\
+  (exists t, get_nested_logit mev_prefix "alt_id" ex_us 0 ex_ums (nn_arg_nests ex_nn) = Ok t).
+Proof.
+  intros Phi.
+  assert (Hwf : wf_strata ex_strata) by (apply wf_stratab_spec; reflexivity).
+  split; [exact Hwf|]. split; [repeat constructor|].
+  split; [apply (check_sample_iff _ _ _ Hwf); reflexivity|].
+  split; [apply (check_mev_sample_iff _ _ Hwf); reflexivity|].
+  split; [apply Permutation_refl|].
+  split; [intros k e [[= <- <-]|[[= <- <-]|[]]]; reflexivity|].
+  split; [intros m [<-|[]]; exists 2%R; split; [reflexivity | lra]|].
+  split; [intros m [<-|[]]; split; [repeat constructor; simpl; intuition lia | apply incl_refl]|].
+  split; [simpl; repeat split; reflexivity|].
+  split; [simpl; repeat split; reflexivity|].
+  split; [unfold pvX; simpl; now rewrite D2R_one|].
+  split; [eexists; vm_compute; reflexivity|].
+  eexists; vm_compute; reflexivity.
+Qed.
+
+Example T19h_example : forall Phi,
+  map snd ex_ncn = cn_arg_nests ex_cn /\ NoDup (map fst ex_ncn) /\
+  cnests_ok Phi ex_en (cn_arg_nests ex_cn) /\ cnests_exact (cn_arg_nests ex_cn) /\
+  (forall nm, In nm ex_ncn ->
+     NoDup (keys (cn_alpha (snd nm))) /\ incl (keys (cn_alpha (snd nm))) (full_set ex_strata)) /\
+  alphas_hold ex_en (alpha_of Phi ex_en) "" ex_ncn 0 (ids ex_rows) /\
+  alphas_hold ex_en (alpha_of Phi ex_en) mev_prefix ex_ncn 0 (ids ex_mrows) /\
+  (exists l, logcnl (pe_dict ex_U) None ex_cn (PN d_one) = Ok l) /\
+  (exists t, get_cross_nested_logit mev_prefix ex_us 0 ex_ums ex_ncn = Ok t).
+Proof.
+  intros Phi.
+  split; [reflexivity|]. split; [repeat constructor; simpl; tauto|].
+  split.
+  { intros m [<-|[]]. split.
+    - exists 2%R. split; [reflexivity | lra].
+    - intros j p [[= <- <-]|[[= <- <-]|[]]]; exists (D2R d_one); (split; [reflexivity | rewrite D2R_one; lra]). }
+  split; [intros m [<-|[]]; exact I|].
+  split; [intros nm [<-|[]]; split; [repeat constructor; simpl; intuition lia | apply incl_refl]|].
+  split; [simpl; repeat split; intros nm [<-|[]]; reflexivity|].
+  split; [simpl; repeat split; intros nm [<-|[]]; reflexivity|].
+  split; [eexists; vm_compute; reflexivity|].
+  eexists; vm_compute; reflexivity.
+Qed.
+
+(* the two theorems applied to the instance: the values coincide *)
+Example T19gh_instance : forall Phi l t l' t',
+  lognested (pe_dict ex_U) None ex_nn (PN d_one) = Ok l ->
+  get_nested_logit mev_prefix "alt_id" ex_us 0 ex_ums (nn_arg_nests ex_nn) = Ok t ->
+  logcnl (pe_dict ex_U) None ex_cn (PN d_one) = Ok l' ->
+  get_cross_nested_logit mev_prefix ex_us 0 ex_ums ex_ncn = Ok t' ->
+  evalX Phi t ex_en = evalX Phi l ex_en /\ evalX Phi t' ex_en = evalX Phi l' ex_en.
+Proof.
+  intros Phi l t l' t' E1 E2 E3 E4.
+  destruct (T19g_example Phi) as (H1 & H2 & H3 & H4 & H5 & H6 & H7 & H8 & H9 & H10 & H11 & _).
+  destruct (T19h_example Phi) as (G1 & G2 & G3 & G4 & G5 & G6 & G7 & _).
+  split.
+  - exact (T19g_full_sampling_nested Phi ex_en IZR ex_U ex_nn ex_strata ex_strata 1 ex_rows ex_mrows "alt_id"
+             mev_prefix ex_us 0%nat ex_ums (PN d_one) l t H1 H2 H3 H1 H2 H4 H5 H6 H7 H8 H9 H10 H11 E1 E2).
+  - exact (T19h_full_sampling_cnl Phi ex_en IZR ex_U ex_cn ex_ncn ex_strata ex_strata 1 ex_rows ex_mrows "alt_id"
+             mev_prefix ex_us 0%nat ex_ums (PN d_one) l' t' H1 H2 H3 H1 H2 H4 H5 H6 G1 G2 G3 G4 G5 H9 G6 H10 G7 H11 E3 E4).
+Qed.
+
+(* The hypothesis "every nest lists an alternative once" of T19g cannot be dropped, although the
+   validators of nests.py accept such a nest: models.lognested counts a repeated alternative twice in
+   the nest sum, the sample builder (BelongsTo a set) once.  Witness inside the proof; replayed on the
+   implementation by corpus/C19/full_nest_repeats_alternative.json. *)
+Theorem T19g_nest_repeating_an_alternative_refuted : forall Phi,
+  exists en Vf (U : dict expr) (a : nn_arg) strata mev c rows mrows idcol pre us j0 ums ch l t,
+    wf_strata strata /\ fully_sampled strata /\ valid_sample strata c rows /\
+    wf_strata mev /\ fully_sampled mev /\ valid_mev_sample mev mrows /\
+    Permutation (keys U) (full_set strata) /\
+    (forall k e, In (k, e) U -> evalX Phi e en = XR (Vf k)) /\
+    nests_ok Phi en (nn_arg_nests a) /\
+    (forall m, In m (nn_arg_nests a) -> incl (nn_alts m) (full_set mev)) /\
+    sample_holds Phi en Vf "" idcol log_proba_col 0 (ids rows) (map row_corr rows) us /\
+    sample_holds Phi en Vf pre idcol mev_weight_col j0 (ids mrows) (map row_weight mrows) ums /\
+    pvX Phi en ch = XR (IZR c) /\
+    lognested (pe_dict U) None a ch = Ok l /\
+    get_nested_logit pre idcol us j0 ums (nn_arg_nests a) = Ok t /\
+    evalX Phi t en <> evalX Phi l en.
+Proof. exact nested_repeated_alternative_refuted. Qed.
+Print Assumptions T19g_nest_repeating_an_alternative_refuted.
+
+(* the closed form that holds with or without repetitions: on the sample a nest is the SET of its
+   alternatives *)
+Theorem T19g_sampled_nested_value :
+  forall Phi en Vf strata mev c rows mrows idcol pre us j0 ums (nests : list nnest) t,
+  wf_strata strata -> fully_sampled strata -> valid_sample strata c rows ->
+  wf_strata mev -> fully_sampled mev -> valid_mev_sample mev mrows ->
+  pairwise_disjoint (map nn_alts nests) = true -> (forall m, In m nests -> nn_alts m <> []) ->
+  nests_ok Phi en nests ->
+  (forall m, In m nests -> incl (nn_alts m) (full_set mev)) ->
+  sample_holds Phi en Vf "" idcol log_proba_col 0 (ids rows) (map row_corr rows) us ->
+  sample_holds Phi en Vf pre idcol mev_weight_col j0 (ids mrows) (map row_weight mrows) ums ->
+  get_nested_logit pre idcol us j0 ums nests = Ok t ->
+  let h := hsample Phi en Vf nests (full_set mev) in
+  evalX Phi t en = XR (h c - ln (sumexp (map h (ids rows)))).
+Proof. exact sampled_nested_value. Qed.
+Print Assumptions T19g_sampled_nested_value.
 
 (* T19e. Validation: Partition(...) accepts exactly the partitions of its (effective) full set;
    check_partition accepts exactly the strata that are non-empty, with 0 <> k <= n and known
